@@ -171,7 +171,7 @@ struct Machine {
 		if(!(k == 2 || k == 4 || k == 32)) { return false; }
 		int const fc = obs().fault_context;
 		switch(fc) {
-			case O_CTOR_EXT: case O_CTOR_EXT_VAL: case O_CTOR_ILIST: case O_CTOR_ITERS: case O_CTOR_VIEW: case O_CTOR_CONVERT: case O_COPY_CTOR: case O_COPY_CTOR_ALLOC: case O_MOVE_CTOR_ALLOC:
+			case O_CTOR_EXT: case O_CTOR_EXT_VAL: case O_CTOR_ILIST: case O_CTOR_ITERS: case O_CTOR_VIEW: case O_CTOR_CONVERT: case O_COPY_CTOR: case O_COPY_CTOR_ALLOC:   // (not O_MOVE_CTOR_ALLOC: the allocator-extended move constructor catches, gives the block back and rethrows)
 			case O_ASSIGN_ILIST: case O_ASSIGN_ITERS: case O_ASSIGN_VIEW: case O_ASSIGN_CONVERT: case O_DECAY: break;
 			default: return false;
 		}
